@@ -275,7 +275,9 @@ class SetAttr(Contract):
         return outs
 
     def instances(self, tier):
-        return ["DF002", "DF406_07", "_payload", "_immutable", "brand_new"]
+        return ["DF002", "DF406_07", "_payload", "_immutable", "brand_new", "payload", "identity", "ismsm"]
+
+    PROPERTY_NAMES = ("payload", "identity", "ismsm")  # class properties without a setter: object.__setattr__ itself refuses them
 
     def verify(self, eng, inst):
         fi = extract.func(self.qualname)
@@ -289,8 +291,15 @@ class SetAttr(Contract):
         for s, out in eng.exec_function(fi, st, {"self": selfv, "name": inst, "value": value}, contract=self):
             wr = {w for w in s.writes if w[0] == selfv.oid}
             if isinstance(out, RaiseExc):
-                eng.oblige(f"{self.qualname}.exc.refuses_iff_immutable[{inst}]", s,
-                           z3.And(imm, z3.BoolVal(out.cls is exc("RTCMMessageError"))), kind="exc", site=fi.lineno)
+                ok = z3.And(imm, z3.BoolVal(out.cls is exc("RTCMMessageError")))
+                if inst in self.PROPERTY_NAMES:
+                    # a finished (immutable) message refuses with the library's error like any other name; only while it is still
+                    # being built does the plain store's own AttributeError show
+                    ok = z3.Or(ok, z3.And(z3.Not(imm), z3.BoolVal(out.cls is AttributeError)))
+                eng.oblige(f"{self.qualname}.exc.refuses_iff_immutable[{inst}]", s, ok, kind="exc", site=fi.lineno,
+                           note=f"raises {out.cls.__name__}")
+                if inst in self.PROPERTY_NAMES:
+                    canary.append(s)  # these names have no normal return at all: reachability is shown on the refusing paths
                 eng.oblige(f"{self.qualname}.exc.nothing_written[{inst}]", s, z3.BoolVal(not wr), kind="frame", site=fi.lineno,
                            note=f"writes {sorted(map(str, wr))}")
                 continue
